@@ -29,6 +29,8 @@ def _origin(net, spec, truncate=None, trunc_how="rst"):
     h2 = spec["proto"] == "h2"
 
     def responder(req, origin):
+        if (req.token or b"").startswith(b"w"):
+            return endpoints.Resp(200, b"OK", [(b"X-Warm", b"1")], b"warm")
         resp = gen.build_resp(spec)
         resp.truncate = truncate
         resp.truncate_how = trunc_how
@@ -57,6 +59,10 @@ async def _one(flavor, spec, seg, truncate=None, trunc_how="rst"):
     url = ("https" if h2 else "http") + "://o.test/x"
 
     async def scen():
+        # the measured response may be the second or third one on a kept-alive connection
+        for i in range(spec.get("warm", 0)):
+            await api.request("GET", url, headers=[("X-Token", f"w{i}")])
+        net.hv_warm_len = net.transports[0].produced if net.transports else 0
         resp, cm = await api.open(spec["method"], url, headers=[("X-Token", "t")])
         try:
             chunks = await api.chunks(resp)
@@ -75,6 +81,7 @@ async def _one(flavor, spec, seg, truncate=None, trunc_how="rst"):
         await api.close_pool()
     except Exception:  # noqa
         pass
+    origin.responses = [x for x in origin.responses if not (x[0].token or b"").startswith(b"w")]
     return out, origin, net
 
 
@@ -149,7 +156,8 @@ def run_case(case):
             viol.append({"key": key, "what": what, "detail": detail})
 
     szc = "0" if spec["size"] == 0 else ("small" if spec["size"] < 1000 else "large")
-    base_sig = f"{spec['proto']}|{spec['framing']}|{spec['status'] // 100}xx|{spec['method']}|i{len(spec['interim'])}|{szc}"
+    base_sig = (f"{spec['proto']}|{spec['framing']}|{spec['status'] // 100}xx|{spec['method']}|i{len(spec['interim'])}|{szc}"
+                f"|w{spec.get('warm', 0)}|bh{spec.get('big_headers', 0)}")
 
     async def main():
         # baseline to learn the wire
@@ -169,8 +177,9 @@ def run_case(case):
         segs = [("fixed1", Segmentation("fixed", 1))] if wire_len <= 20000 else [("fixed997", Segmentation("fixed", 997))]
         for i in range(case["n_random"]):
             segs.append(("random", Segmentation("random", rng=random.Random(case["seed"] * 31 + i))))
-        if wire_len <= case["max_exhaustive"]:
-            for c in range(1, wire_len):
+        warm_len = getattr(net, "hv_warm_len", 0)
+        if wire_len - warm_len <= case["max_exhaustive"]:
+            for c in range(max(1, warm_len - 2), wire_len):
                 segs.append(("cut", Segmentation("cuts", [c])))
         for name, seg in segs:
             out, origin, net = await _one(flavor, spec, seg)
